@@ -507,9 +507,14 @@ func checkMatchBoundaries(c *Ctx, rule string, resolver *ssa.Function) {
 		if !IsModuleFunc(fn) {
 			continue
 		}
+		// each function in its view (verdict expressions split per path), counting only its own call sites
+		fn := p.View(fn)
 		for _, ci := range allCalls(fn, func(ci ssa.CallInstruction) bool {
 			return calleeIs(ci, "strings", "", "HasSuffix") || calleeIs(ci, "strings", "", "HasPrefix") || calleeIs(ci, "strings", "", "CutPrefix") || calleeIs(ci, "strings", "", "CutSuffix")
 		}) {
+			if p.InlinedFrom(ci) != nil {
+				continue
+			}
 			call := ci.(*ssa.Call)
 			isSuffix := strings.HasSuffix(call.Call.StaticCallee().Name(), "Suffix")
 			isCut := strings.HasPrefix(call.Call.StaticCallee().Name(), "Cut")
